@@ -557,11 +557,12 @@ def conformance_cases(tier: str) -> List[dict]:
     return out
 
 
-def conformance_one(case: dict) -> List[dict]:
+def conformance_one(case: dict, sub: Optional[dict] = None) -> List[dict]:
     reqs = list(case["requests"])
     cls = case["cls"]
     inproc = do_run(reqs, 3)
-    sub = server.run_subprocess(files(), reqs, sdkconfig=SDK0, default_version=None, aux=AUX)
+    if sub is None:
+        sub = server.run_subprocess(files(), reqs, sdkconfig=SDK0, default_version=None, aux=AUX)
     viols = []
     if sub["raw"] != inproc.raw:
         a, b_ = sub["lines"], inproc.lines
@@ -584,18 +585,23 @@ def conformance_one(case: dict) -> List[dict]:
 
 
 def conformance(tier: str, seed: int):
+    from concurrent.futures import ThreadPoolExecutor
+
     viols: List[dict] = []
-    done = 0
     saved = None
     if not os.environ.get("MCK_DEBUG"):
         saved = os.dup(2)
         common.silence_stderr()
     try:
-        for case_ in conformance_cases(tier):
-            viols.extend(conformance_one(case_))
-            done += 1
+        cases = conformance_cases(tier)
+        fl = files()
+        # the real servers are independent OS processes: up to 8 at a time; the in-process twins stay sequential
+        with ThreadPoolExecutor(max_workers=8) as ex:
+            subs = list(ex.map(lambda c: server.run_subprocess(fl, list(c["requests"]), sdkconfig=SDK0, default_version=None, aux=AUX), cases))
+        for case_, sub in zip(cases, subs):
+            viols.extend(conformance_one(case_, sub))
     finally:
         if saved is not None:
             os.dup2(saved, 2)
             os.close(saved)
-    return done, viols
+    return len(cases), viols
